@@ -1,9 +1,10 @@
 (* C19 - TIFA's operator typing agrees with what CPython does at run time (core types int, float, str, list, tuple).
    The operator table is REGENERATED from pedal/types/operations.py on every run.
-   PARTIAL: comparisons and the value-typing part are checked by the correspondence run only. *)
+   Comparisons: Tifa.visit_Compare's dispatch lists, the orderable sets and the allows_membership shapes are REGENERATED too.
+   PARTIAL: the value-typing part is checked by the correspondence run only. *)
 From Coq Require Import List String Bool.
 Import ListNotations.
-From Pedal Require Import model.C19_Types gen.C19_Gen proof.C19_Lemmas.
+From Pedal Require Import model.C19_Types gen.C19_Gen model.C19_Compare proof.C19_Lemmas proof.C19_Compare_Lemmas.
 Open Scope string_scope.
 
 Theorem C19_reports_when_cpython_raises :
@@ -26,3 +27,21 @@ Theorem C19_static_sound :
   forall e c, ops_ok e -> static e = Some c -> dynamic e = Some [c].
 Proof. exact static_sound. Qed.
 Print Assumptions C19_static_sound.
+
+(* comparisons: for every comparison operator x every ordered pair of core operand types, whichever pedal class (plain or
+   literal) the operands carry *)
+Theorem C19_compare_reports_when_cpython_raises :
+  forall op a b l r, In op cmpops -> In l (reps a) -> In r (reps b) -> cpy_cmp_raises op a b = true -> tifa_cmp op l r = Some true.
+Proof. exact compare_reports_when_cpython_raises. Qed.
+Print Assumptions C19_compare_reports_when_cpython_raises.
+
+Theorem C19_compare_exact :
+  forall op a b l r, In op cmpops -> In l (reps a) -> In r (reps b) -> decided op b = true ->
+    tifa_cmp op l r = Some (cpy_cmp_raises op a b).
+Proof. exact compare_exact. Qed.
+Print Assumptions C19_compare_exact.
+
+Theorem C19_undecided_cells_never_raise :
+  forall op a b, decided op b = false -> cpy_cmp_raises op a b = false.
+Proof. exact undecided_cells_never_raise. Qed.
+Print Assumptions C19_undecided_cells_never_raise.
